@@ -6,10 +6,13 @@ toolchain go1.23.5
 
 require (
 	github.com/anishathalye/porcupine v1.3.0
+	github.com/aws/aws-sdk-go v1.34.30
 	github.com/chrislusf/raft v1.0.7
 	github.com/chrislusf/seaweedfs v0.0.0
 	github.com/golang/protobuf v1.4.3
 	github.com/seaweedfs/fuse v1.1.8
+	github.com/willf/bloom v2.0.3+incompatible
+	go.etcd.io/etcd v3.3.15+incompatible
 	google.golang.org/grpc v1.29.1
 	pgregory.net/rapid v1.3.0
 )
@@ -19,7 +22,6 @@ require (
 	cloud.google.com/go/pubsub v1.3.1 // indirect
 	github.com/DataDog/zstd v1.3.6-0.20190409195224-796139022798 // indirect
 	github.com/Shopify/sarama v1.23.1 // indirect
-	github.com/aws/aws-sdk-go v1.34.30 // indirect
 	github.com/beorn7/perks v1.0.1 // indirect
 	github.com/bwmarrin/snowflake v0.3.0 // indirect
 	github.com/cespare/xxhash/v2 v2.1.1 // indirect
@@ -80,6 +82,7 @@ require (
 	github.com/peterh/liner v1.1.0 // indirect
 	github.com/pierrec/lz4 v2.2.7+incompatible // indirect
 	github.com/pkg/errors v0.9.1 // indirect
+	github.com/pquerna/cachecontrol v0.1.0 // indirect
 	github.com/prometheus/client_golang v1.11.0 // indirect
 	github.com/prometheus/client_model v0.2.0 // indirect
 	github.com/prometheus/common v0.26.0 // indirect
@@ -105,12 +108,10 @@ require (
 	github.com/viant/ptrie v0.3.0 // indirect
 	github.com/viant/toolbox v0.33.2 // indirect
 	github.com/willf/bitset v1.1.10 // indirect
-	github.com/willf/bloom v2.0.3+incompatible // indirect
 	github.com/xdg-go/pbkdf2 v1.0.0 // indirect
 	github.com/xdg-go/scram v1.0.2 // indirect
 	github.com/xdg-go/stringprep v1.0.2 // indirect
 	github.com/youmark/pkcs8 v0.0.0-20181117223130-1be2e3e5546d // indirect
-	go.etcd.io/etcd v3.3.15+incompatible // indirect
 	go.mongodb.org/mongo-driver v1.7.0 // indirect
 	go.opencensus.io v0.22.4 // indirect
 	go.opentelemetry.io/otel v0.15.0 // indirect
